@@ -78,9 +78,6 @@ PENDING_FINDINGS = {
         'embedded callback only in STATE_CLASS_FIELD/STATE_STRUCT_FIELD, so in STATE_UNION_FIELD the compiler warns '
         '"element callback from state 27 is unknown" and then dies with "Caught NULL node, parent=<field>" (or writes a '
         'typelib on which the repository API aborts)',
-    'flag:field:readable:gir=0:typelib=1':
-        'start_field computes readable = (readable == NULL || strcmp (readable, "0") == 0): readable="0" (every '
-        'private field) is compiled as READABLE',
     'present:member:introspectable=0':
         'an enum member annotated (skip) is written with introspectable="0" but start_member never looks at the '
         'attribute: the value is present in the typelib',
@@ -101,21 +98,12 @@ PENDING_FINDINGS = {
         '(transfer) annotation: IntrospectablePass returns early for skipped nodes, the function stays introspectable, '
         'the writer omits transfer-ownership and the compiler rejects the whole file ("required attribute '
         '\'transfer-ownership\' missing")',
-    'compiler:fatal:field-with-non-introspectable-callback':
-        'a (skip) annotation on the invoker method of a virtual function is copied to the callback of the class-struct '
-        'field; IntrospectablePass._introspectable_pass3 only propagates `not introspectable` (not `skip`) to the field, '
-        'so the GIR has an introspectable <field> whose only child is <callback introspectable="0"> (the same '
-        'shape arises for a vfunc of a (skip) interface); the compiler skips the callback and dies with "Caught NULL node, '
-        'parent=<field>" or "Invalid typelib ... Wrong blob type"',
     'compiler:error:reference-to-introspectable-0:class:class-parent':
         'a class annotated (skip) keeps introspectable subclasses: <class parent="X"> with X introspectable="0"; '
         'the compiler drops X and fails with "type reference \'X\' not found"',
     'compiler:error:reference-to-introspectable-0:interface:implements':
         'an interface annotated (skip) is still listed in <implements name="X"/> of an introspectable class; the '
         'compiler drops X and fails with "type reference \'X\' not found"',
-    'flag:property:deprecated:gir=1:typelib=0':
-        'start_property never fetches "deprecated": a property the GIR marks deprecated="1" is not deprecated in '
-        'the typelib (PropertyBlob.deprecated stays 0)',
     'api:union.deprecated:g_base_info_is_deprecated=0':
         'the compiler sets UnionBlob.deprecated, but g_base_info_is_deprecated() has no case for GI_INFO_TYPE_UNION and '
         'answers FALSE (repository API, gibaseinfo.c)',
@@ -1759,12 +1747,15 @@ def judge_case(res, state_names):
 
 
 def writer_only_shapes(root):
-    """hypothesis `writerOnlyOffences` of Props/C15.lean: no scanner output has these"""
+    """hypotheses `writerOnlyOffences` / `writerOnlyValueOffences` of Props/C15.lean: no scanner output has these"""
     out = []
     for i in root.iter(qn('interface')):
         for c in i:
             if local(c.tag) in ('record', 'union', 'field'):
                 out.append('<interface name=%r> has a <%s> child' % (i.get('name'), local(c.tag)))
+    for ip in root.iter(qn('instance-parameter')):
+        if ip.get('transfer-ownership') not in ('none', 'full'):
+            out.append('<instance-parameter name=%r transfer-ownership=%r>' % (ip.get('name'), ip.get('transfer-ownership')))
     return out
 
 
@@ -1990,9 +1981,9 @@ def run(ctx):
     corpus = load_corpus()
     for c in corpus:
         if c.get('cfg') is not None:
-            cases.append({'origin': 'corpus', 'name': c.get('name'), 'cfg': c['cfg'], 'expect': c.get('expect')})
+            cases.append({'origin': 'corpus', 'name': c.get('name'), 'cfg': c['cfg'], 'finding': c.get('finding')})
         else:
-            cases.append({'origin': 'corpus', 'name': c.get('name'), 'gir': c['gir'], 'expect': c.get('expect'),
+            cases.append({'origin': 'corpus', 'name': c.get('name'), 'gir': c['gir'], 'finding': c.get('finding'),
                           'standin_deps': True})
     cases += expected_girs(env)
     n_gen = ctx.n(70, 1500)
@@ -2049,11 +2040,11 @@ def run(ctx):
                 cnt.hit('element:%s' % local(e.tag))
                 if e.get('introspectable') == '0':
                     cnt.hit('hidden:%s' % local(e.tag))
-            if r['origin'] != 'expected' or True:
+            if True:
                 for w in writer_only_shapes(root)[:1]:
                     if 'writer-only' not in seen:
                         seen.add('writer-only')
-                        ctx.broken.append('hypothesis writerOnlyOffences of Props/C15.lean no longer holds: a scanner output has %s (%s %s)'
+                        ctx.broken.append('hypothesis writerOnlyOffences / writerOnlyValueOffences of Props/C15.lean no longer holds: a scanner output has %s (%s %s)'
                                           % (w, r['origin'], r['name']))
         except ET.ParseError:
             pass
@@ -2067,11 +2058,9 @@ def run(ctx):
                 ctx.report_failure(key, PENDING_FINDINGS[key] + ' — e.g. ' + what, replay_of(r, key))
             else:
                 new_failures.append((key, what, r))
-        exp = r.get('expect')
-        if exp is not None:
-            got = sorted(set(k for k, _ in probs))
-            if sorted(exp) != got:
-                ctx.broken.append('corpus case %s: expected findings %s, got %s' % (r['name'], sorted(exp), got))
+        if r.get('finding') is not None:
+            # a corpus case kept for one finding: say so when the real code no longer shows it (repaired?)
+            cnt.hit('corpus:finding-%s' % ('reproduced' if any(k == r['finding'] for k, _ in probs) else 'NOT-reproduced:' + r['finding']))
 
     # ---- failing-input search around new failures: shrink the description while the failure persists
     budget = [ctx.n(60, 400)]
